@@ -158,6 +158,76 @@ impl CalBits {
         }
         CalBits { z0, bus, settle }
     }
+    /// The same bit vectors from the calendar's DESCRIPTION instead of from the object under test: a custom
+    /// calendar from its week mask and holiday list, a union / named calendar by the definition (business day in
+    /// every member; settlement day = business day in every settlement member, always if there are none).
+    /// Built-in members are taken as given (C07 judges their holiday lists). None if a name does not resolve.
+    pub fn from_spec(spec: &CalSpec, z0: i64, z1: i64) -> Option<Self> {
+        fn leaf_bus(spec: &CalSpec, z0: i64, z1: i64) -> Option<Vec<bool>> {
+            match spec {
+                CalSpec::Builtin(n) => {
+                    let c = rateslib::calendars::get_calendar_by_name(n).ok()?;
+                    Some((z0..=z1).map(|z| c.is_bus_day(&to_ndt(z))).collect())
+                }
+                CalSpec::Custom { week_mask, holidays } => {
+                    let hs: std::collections::HashSet<i64> = holidays.iter().cloned().collect();
+                    Some((z0..=z1).map(|z| !week_mask.contains(&(weekday(z) as u8)) && !hs.contains(&z)).collect())
+                }
+                _ => None,
+            }
+        }
+        let and_all = |parts: &[CalSpec]| -> Option<Vec<bool>> {
+            let mut acc = vec![true; (z1 - z0 + 1) as usize];
+            for p in parts {
+                let b = leaf_bus(p, z0, z1)?;
+                for (a, x) in acc.iter_mut().zip(b.iter()) {
+                    *a = *a && *x;
+                }
+            }
+            Some(acc)
+        };
+        let n = (z1 - z0 + 1) as usize;
+        match spec {
+            CalSpec::Builtin(_) | CalSpec::Custom { .. } => Some(CalBits { z0, bus: leaf_bus(spec, z0, z1)?, settle: vec![true; n] }),
+            CalSpec::Union { members, settle } => Some(CalBits {
+                z0,
+                bus: and_all(members)?,
+                settle: match settle {
+                    None => vec![true; n],
+                    Some(v) => and_all(v)?,
+                },
+            }),
+            CalSpec::Named(name) => {
+                let lower = name.to_lowercase();
+                let mut halves = lower.split('|');
+                let ms: Vec<CalSpec> = halves.next()?.split(',').map(|x| CalSpec::Builtin(x.to_string())).collect();
+                let ss: Option<Vec<CalSpec>> = halves.next().map(|h| h.split(',').map(|x| CalSpec::Builtin(x.to_string())).collect());
+                if halves.next().is_some() {
+                    return None;
+                }
+                Some(CalBits {
+                    z0,
+                    bus: and_all(&ms)?,
+                    settle: match ss {
+                        None => vec![true; n],
+                        Some(v) => and_all(&v)?,
+                    },
+                })
+            }
+        }
+    }
+    /// first date on which the two disagree, and in which predicate
+    pub fn first_difference(&self, other: &CalBits) -> Option<(i64, &'static str)> {
+        for i in 0..self.bus.len().min(other.bus.len()) {
+            if self.bus[i] != other.bus[i] {
+                return Some((self.z0 + i as i64, "is_bus_day"));
+            }
+            if self.settle[i] != other.settle[i] {
+                return Some((self.z0 + i as i64, "is_settlement"));
+            }
+        }
+        None
+    }
     pub fn z1(&self) -> i64 {
         self.z0 + self.bus.len() as i64 - 1
     }
